@@ -191,6 +191,9 @@ func (e *SpecEnv) local(name string) (SVal, bool) {
 			}
 		}
 	}
+	if nv, ok := e.fr.named[name]; ok {
+		return SVal{nv.t, nv.ty}, true
+	}
 	// free variables of closures
 	for i, fv := range fn.FreeVars {
 		if fv.Name() == name && i < len(e.fr.bindings) {
